@@ -211,14 +211,21 @@ def oracle(case):
     if not np.array_equal(m1, m2):
         k = int(np.argmax(np.any(m1 != m2, axis=(1, 2))))
         return f"cm({t[k]!r}): virtual {m1[k].tolist()} vs materialised {m2[k].tolist()} {info}"
-    for kw in ({}, {"lower": 0.1, "upper": 0.6}, {"x_axis": "fnr", "y_axis": "tnr"}, {"lower": 0.3, "upper": 0.95, "x_axis": "tnr", "y_axis": "fnr"}):
+    for kw in ({}, {"lower": 0.1, "upper": 0.6}, {"x_axis": "fnr", "y_axis": "tnr"}, {"lower": 0.3, "upper": 0.95, "x_axis": "tnr", "y_axis": "fnr"},
+               {"lower": 0.9, "upper": 1.0}, {"lower": 0.0, "upper": 0.05}, {"lower": 0.97, "upper": 0.99, "x_axis": "fnr", "y_axis": "fpr"}):
         x, y = a.auc(**kw), b.auc(**kw)
         if abs(x - y) > 1e-12:
             return f"auc({kw}): virtual {x!r} vs materialised {y!r} {info}"
+    # one float64 target array shared by both objects and by all metrics: no query may write into it
+    shared = np.linspace(0.05, 0.95, 7)
+    shared0 = shared.copy()
     for m in TH.METRICS:
         rel = {"tpr": pos, "fnr": pos, "tnr": neg, "fpr": neg}.get(m, allv)
         if not rel:
             continue
+        va, vb = getattr(a, "threshold_at_" + m)(shared), getattr(b, "threshold_at_" + m)(shared)
+        if not np.array_equal(shared, shared0):
+            return f"threshold_at_{m} modified the caller's target array (the next object sees other targets) {info}"
         n_all = len(rel) + {"tpr": ep, "fnr": ep, "tnr": en, "fpr": en}.get(m, ep + en)
         for k in range(0, 4 * n_all + 1):
             r = k / (4 * n_all)
